@@ -154,6 +154,36 @@ func c20Templates() []*c20Tpl {
 		t.bad = func(x *OracleCtx) interp.Value { return interp.SymBool{T: fmt.Sprintf("(= %s %s)", kv.IntT, n.IntT)} }
 		t.line = 6
 	})
+	// duplicate values of the outer switch with another switch (directly, or
+	// inside an if) in the case body between them
+	for _, inIf := range []bool{false, true} {
+		inIf := inIf
+		name := "duplicate-case-around-nested-switch"
+		if inIf {
+			name += "-in-if"
+		}
+		add(name, func(t *c20Tpl) {
+			s := t.atoms.New(ClsUserName, "script", "names")
+			vv, ww := t.atoms.New(ClsIdent, "var", ""), t.atoms.New(ClsIdent, "var", "")
+			n1, n2, n3 := t.atoms.New(ClsNum, "case", ""), t.atoms.New(ClsNum, "case", ""), t.atoms.New(ClsNum, "case", "")
+			c := t.atoms.New(ClsPlainCmd, "cmd", "")
+			f := t.atoms.New(ClsIdent, "flag", "")
+			t.src = func() string {
+				inner := []string{"      switch (var(" + ph(ww) + ")) {", "        case " + ph(n3) + ":", "          " + ph(c), "      }"}
+				if inIf {
+					inner = append(append([]string{"      if (flag(" + ph(f) + ")) {"}, inner...), "      }")
+				}
+				ls := append([]string{"script " + ph(s) + " {", "  switch (var(" + ph(vv) + ")) {", "    case " + ph(n1) + ":"}, inner...)
+				ls = append(ls, "    case "+ph(n2)+":", "      "+ph(c), "  }", "}")
+				return lines(ls...)
+			}
+			t.bad = func(x *OracleCtx) interp.Value { return interp.SymBool{T: fmt.Sprintf("(= %s %s)", n1.IntT, n2.IntT)} }
+			t.line = 8
+			if inIf {
+				t.line = 10
+			}
+		})
+	}
 	add("two-defaults", func(t *c20Tpl) {
 		s := t.atoms.New(ClsUserName, "script", "names")
 		vv := t.atoms.New(ClsIdent, "var", "")
@@ -385,7 +415,7 @@ func RunC20(env *Env, rep *Report) {
 		names = append(names, t.name)
 	}
 	rep.Technique = "symbolic execution of the real parser/emitter rejection paths (go/ssa) with symbolic names, case values and line numbers; which names clash is found by the solver, the reported line is compared with the symbolic line of the offending construct (z3)"
-	rep.Explanation = "Bounded symbolic verification, not a proof. Templates injecting one ill-formedness at a time - break outside a loop/switch (top level, inside if, after a closed loop, after a closed switch, in an inline map script, in a poryswitch case), continue outside a loop / inside a switch only / after a closed loop / not last in its block (also nested), duplicate case values (symbolic numbers, symbolic identifiers, through a constant in either order), two defaults, a redefined constant, a script label equal to one of the script's generated labels (with the label at the top of the script, inside an if body, inside a loop body and at the end; a chunk label that is not emitted under the given -optimize setting may be accepted or rejected) or to a text label, a text or movement name equal to a generated name, two texts with one name - are compiled by symbolic execution with symbolic names/values and symbolic line numbers. Whether the clash happens is a solver-decided fork of the oracle (the solver finds the clashing names/values); on the ill-formed side the result must be an error without output whose line equals, for every layout, the symbolic line of the offending construct; on the well-formed side the program must be accepted."
+	rep.Explanation = "Bounded symbolic verification, not a proof. Templates injecting one ill-formedness at a time - break outside a loop/switch (top level, inside if, after a closed loop, after a closed switch, in an inline map script, in a poryswitch case), continue outside a loop / inside a switch only / after a closed loop / not last in its block (also nested), duplicate case values (symbolic numbers, symbolic identifiers, through a constant in either order, with a nested switch between the two), two defaults, a redefined constant, a script label equal to one of the script's generated labels (with the label at the top of the script, inside an if body, inside a loop body and at the end; a chunk label that is not emitted under the given -optimize setting may be accepted or rejected) or to a text label, a text or movement name equal to a generated name, two texts with one name - are compiled by symbolic execution with symbolic names/values and symbolic line numbers. Whether the clash happens is a solver-decided fork of the oracle (the solver finds the clashing names/values); on the ill-formed side the result must be an error without output whose line equals, for every layout, the symbolic line of the offending construct; on the well-formed side the program must be accepted."
 	rep.Bounds = map[string]interface{}{"templates": names, "cases": len(cases), "variants": "optimize on (with line markers and a path) and off"}
 	rep.Outside = []string{"other positions and nestings of the violation than the listed templates", "several violations in one program"}
 	rep.Assumptions = []string{"in the label/name clash templates the script name is the concrete 'MyScript' so that generated names are concrete literals the symbolic user name can equal"}
